@@ -379,7 +379,7 @@ loop:
 		return
 	}
 	// other connections must still be served correctly
-	b, herr := httpCall(v.url, `{"jsonrpc":"2.0","id":9,"method":"T.Add","params":[20,22]}`)
+	b, herr := httpCall(v.url, `{"jsonrpc":"2.0","id":9,"method":"V.Sum","params":[20,22]}`)
 	if herr != nil || !strings.Contains(b, `"result":42`) {
 		if !v.child.Alive() {
 			obs.Crash = true
